@@ -131,7 +131,17 @@ func wlHsShared(c *Ctx, out *raceWorkerOut) {
 	srvCfg := raceSrvConfMulti()
 	srvLists0 := cfgLists(srvCfg)
 	srv := server.New(srvCfg)
-	srv.Handle(raceCmd, echoHandler)
+	// the server side of every connection: which session identifier it minted (full handshakes) with which key
+	var mintMu sync.Mutex
+	srvMinted := map[string][][]byte{} // sid -> keys of the full server handshakes that ended with it
+	srv.Handle(raceCmd, func(ctx context.Context, sc *server.Conn) error {
+		if n := sc.Negotiation; n != nil && !n.SessionResumed {
+			mintMu.Lock()
+			srvMinted[n.SessionId] = append(srvMinted[n.SessionId], append([]byte{}, n.GetSharedSecret()...))
+			mintMu.Unlock()
+		}
+		return echoHandler(ctx, sc)
+	})
 	// every other round the server selects a per-command policy from ONE shared object (the daemon
 	// pattern of server.SecurityConfigForCommand): the handshake must not write through it either
 	perCmd := raceSrvConfMulti()
@@ -255,6 +265,19 @@ func wlHsShared(c *Ctx, out *raceWorkerOut) {
 			if phase == 1 && resumedN == 0 {
 				out.count("hs-resume-phase-without-resumption")
 			}
+			// every server handshake that ran to the end minted its own session identifier
+			mintMu.Lock()
+			for sid, keys := range srvMinted {
+				out.Dist["hs-server-minted-ids"]++
+				if len(keys) > 1 || sid == "" {
+					out.violate(Violation{Property: "C17", Key: "C17:session-id-minted-twice",
+						What:     "two simultaneous server handshakes ended with the SAME session identifier: the second session stored under it replaces the first (key, identity)",
+						Ops:      []string{fmt.Sprintf("# round %d phase %s: %d goroutines call client.ConnectAndAuthenticateWithConfig(addr, shared config) at once against one server.Server", rd, name, N)},
+						Expected: "all session identifiers minted by one process pairwise distinct", Observed: fmt.Sprintf("identifier ending …%s minted by %d handshakes", idTail(sid), len(keys))})
+				}
+			}
+			srvMinted = map[string][][]byte{}
+			mintMu.Unlock()
 		}
 		// post-condition (handshakes do not disturb one another THROUGH the shared object): the
 		// configuration objects the caller shared are exactly as the caller left them — element
